@@ -279,6 +279,13 @@ def naming_cases(chk, root):
         ('file names with a dash (header guards)',
          {'msg-base.prophy': 'struct Bb { u8 b; };\n', 'msg-ext.prophy': '#include "msg-base.prophy"\nstruct Ee { Bb b; u16 e; };\n'},
          'struct Bb { u8 b; };\nstruct Ee { Bb b; u16 e; };\n', 'msg-ext', 'Ee', ['cpp']),
+        ('file names differing in a dash / an underscore (header guards)',
+         {'msg-base.prophy': 'struct Bb { u8 b; };\n', 'msg_base.prophy': '#include "msg-base.prophy"\nstruct Ee { Bb b; u16 e; };\n'},
+         'struct Bb { u8 b; };\nstruct Ee { Bb b; u16 e; };\n', 'msg_base', 'Ee', ['cpp']),
+        ('one file seen through a symbolic link',
+         {'dirA/common.prophy': 'struct P { u8 p; };\n', 'dirB/common.prophy': '->../dirA/common.prophy', 'dirA/x.prophy': '#include "common.prophy"\nstruct X { P p; };\n',
+          'dirB/y.prophy': '#include "common.prophy"\nstruct Y { P p; };\n', 'main.prophy': '#include "dirA/x.prophy"\n#include "dirB/y.prophy"\nstruct M { X x; Y y; };\n'},
+         'struct P { u8 p; };\nstruct X { P p; };\nstruct Y { P p; };\nstruct M { X x; Y y; };\n', 'main', 'M', []),
         ('include line followed by a quoted word',
          {'b.prophy': 'struct B { u8 b; };\n', 'a.prophy': '#include "b.prophy" // the "base" types\nstruct A { B b; u16 e; };\n'},
          'struct B { u8 b; };\nstruct A { B b; u16 e; };\n', 'a', 'A', ['python', 'cpp']),
@@ -296,6 +303,9 @@ def naming_cases(chk, root):
         os.makedirs(os.path.join(cd, 'one'))
         for n, t in files.items():
             os.makedirs(os.path.dirname(os.path.join(cd, n)) or cd, exist_ok=True)
+            if t.startswith('->'):
+                os.symlink(t[2:], os.path.join(cd, n))
+                continue
             with open(os.path.join(cd, n), 'w') as f:
                 f.write(t)
         with open(os.path.join(cd, 'one', 'one.prophy'), 'w') as f:
@@ -305,7 +315,7 @@ def naming_cases(chk, root):
         chk.bump('naming:' + kind)
         out = os.path.join(cd, 'out')
         os.makedirs(out)
-        outs = (['--python_out', out] if 'python' in outputs else []) + (['--cpp_full_out', out, '--cpp_out', out] if 'cpp' in outputs else [])
+        outs = (['--python_out', out] if 'python' in outputs else []) + (['--cpp_full_out', out, '--cpp_out', out] if 'cpp' in outputs else []) or ['--void_out']
         inputs = [n for n in files if '/' not in n]     # files in sub-directories are reached through the includes only
         rc, so, se = run_cli(['-I', cd] + outs + [os.path.join(cd, n) for n in inputs], cd)
         rc1, _, se1 = run_cli(['--python_out', os.path.join(cd, 'one'), os.path.join(cd, 'one', 'one.prophy')], cd)
